@@ -958,6 +958,9 @@ pub fn exhaustive_family(prop: &str, tier: &str, rng: &mut Rng, shard: (usize, u
             for d in variable_graph_cases(rng, budget(tier, 3000, 60000)) {
                 docs.push(("variable-graphs".to_string(), d.print()));
             }
+            for d in variable_site_cases() {
+                docs.push(("variable-sites".to_string(), d.print()));
+            }
             let vo = variable_object_cases();
             let nvo = budget(tier, 2500, vo.len());
             for d in pick_sample(vo, nvo, rng) {
@@ -996,6 +999,9 @@ pub fn exhaustive_family(prop: &str, tier: &str, rng: &mut Rng, shard: (usize, u
             for d in operation_mix_cases(rng, budget(tier, 2500, 50000)) {
                 docs.push(("operation-mixes".to_string(), d.print()));
             }
+            for d in subscription_key_cases(rng, budget(tier, 2000, 40000)) {
+                docs.push(("subscription-keys".to_string(), d.print()));
+            }
         }
         "C05" => {
             for d in merge_cases(rng, budget(tier, 1500, 40000)) {
@@ -1030,6 +1036,9 @@ pub fn exhaustive_family(prop: &str, tier: &str, rng: &mut Rng, shard: (usize, u
         "C10" => {
             for d in directive_mix_cases(rng, budget(tier, 2500, 50000)) {
                 docs.push(("directive-mixes".to_string(), d.print()));
+            }
+            for d in directive_sibling_cases(rng, budget(tier, 2500, 50000)) {
+                docs.push(("directive-siblings".to_string(), d.print()));
             }
             for d in SYNTH_DIRECTIVES {
                 for loc in 0..7 {
